@@ -33,6 +33,9 @@ def run(ctx):
             tasks.append(dict(fn='assertions', kw=dict(simname=sim, fail_at=k)))
         for bw in (1, 4, 63, 64, 65, 130):
             tasks.append(dict(fn='illegal_inputs', kw=dict(simname=sim, bw=bw)))
+        for k in (1, 2, 5):
+            for we in (False, True):
+                tasks.append(dict(fn='illegal_mid_sequence', kw=dict(simname=sim, k=k, with_expected=we)))
     for d in fam + wide:
         tasks.append(dict(fn='printers', kw=dict(design=d, seed=ctx.seed)))
     # rtl_assert is specified for Simulation and FastSimulation only
@@ -59,6 +62,7 @@ def run(ctx):
                                       'stop_after_first_error',
                           'printers': 'print_trace bases 2/8/10/16 (+compact) and print_vcd parsed back',
                           'assertions': 'assert wire falls at cycle k in {0,1,3,6}',
+                          'illegal_mid_sequence': 'step_multiple with an illegal value at step 1, 2, 5, with/without expected_outputs, vs single stepping',
                           'illegal_inputs': 'bitwidths 1,4,63,64,65,130 x {0,2^bw-1,2^(bw-1),2^bw,2^bw+5,-1,-2^bw,2^(bw+64)}'}[fn],
                    sample=[t for t in tasks if t['fn'] == fn][0])
     return ctx.finish('other', './check C15', ['CPython'],
